@@ -2,7 +2,7 @@
 # usage: try_scratch.sh <dir with patch.diff> <name> <ID> [<ID>...] : apply a change to a private scratch worktree of
 # /repo (never /repo itself), run the quick checks of the given properties against it, remove the worktree.
 # Prints one line per check; logs in /tmp/ts_<name>_<ID>.log
-cd /verif || exit 2
+cd ${VERIF_DIR:-/verif} || exit 2
 d="$1"; n="$2"; shift 2
 wt=/tmp/ts_wt_$n
 rm -rf $wt; git -C /repo worktree prune; git -C /repo worktree add -q --detach $wt HEAD || exit 2
